@@ -1,6 +1,6 @@
 (* C13 - each link is transparent to packet sequences under every polling schedule. *)
 Require Import RP.Model.Base RP.Model.Packet RP.Model.Cobs RP.Model.Frame RP.Model.Links RP.Spec.Frag
-  RP.Lemmas.PacketLemmas RP.Lemmas.FragWf RP.Lemmas.OnFrame RP.Lemmas.LinkGeneric RP.Lemmas.LinkUsart RP.Lemmas.LinkSerialCan RP.Lemmas.LinkTheorems.
+  RP.Lemmas.PacketLemmas RP.Lemmas.FragWf RP.Lemmas.OnFrame RP.Lemmas.LinkGeneric RP.Lemmas.LinkUsart RP.Lemmas.LinkSerialCan RP.Lemmas.LinkTheorems RP.Lemmas.Senders RP.Lemmas.SenderReceiver.
 
 (* what the senders put on the link for a packet (C14 proves the emission loops write exactly this):
    the link frames of the fragmentation, encoded by the frame codecs *)
@@ -9,14 +9,7 @@ Theorem C13_sender_wire : forall p, wf_packet p = true -> small p ->
   mapM to_usart (frag_spec p) = Val (map enc_of (frag_spec p)) /\
   mapM to_bxcan (frag_spec p) = Val (map can_of (frag_spec p)) /\
   concat (map link_bytes (map enc_of (frag_spec p))) = wire_frames (frag_spec p).
-Proof.
-  intros p Hw Hs. pose proof (frag_spec_good p Hw Hs) as Hg. rewrite Forall_forall in Hg.
-  split; [apply to_frames_spec; exact Hs|]. split; [|split].
-  - apply mapM_ext_val. intros f Hf. destruct (Hg f Hf) as [H1 [_ H3]]. apply (enc_of_spec f H1 H3).
-  - apply mapM_ext_val. intros f Hf. destruct (Hg f Hf) as [H1 [H2 _]]. apply (can_of_spec f H1 H2).
-  - unfold wire_frames. rewrite map_map. f_equal. apply map_ext_in. intros f Hf. destruct (Hg f Hf) as [H1 [_ H3]].
-    destruct (enc_of_spec f H1 H3) as [_ [_ Hl]]. unfold link_bytes, link_frame, nlen. rewrite N.mod_small by lia. reflexivity.
-Qed.
+Proof. exact sender_wire. Qed.
 
 (* USART: the device may report 'no data yet' any number of times between ANY two bytes; the polls
    return exactly the packets sent, in order, and otherwise only 'nothing received'; the receiver ends empty *)
@@ -47,3 +40,11 @@ Example C13_nonvacuous :
   wf_packet p = true /\ small p /\
   map fst (fst (polls usart 200 None ([UWB] ++ map UB (firstn 5 (wire_packets [p])) ++ [UWB; UWB] ++ map UB (skipn 5 (wire_packets [p]))))) = [RNone; RPacket p; RNone].
 Proof. cbv zeta. split; [reflexivity|]. split; [unfold small; cbn; lia|]. vm_compute. reflexivity. Qed.
+
+(* sender and receiver together, in the model: what try_send_packet puts on a USART link for a packet sequence
+   (fragmentation, frame encoding, the emission loop under any would-block pattern that eventually accepts every
+   byte) is exactly the wire image C13_usart is stated for *)
+Theorem C13_sender_usart : forall ps ans, Forall wfp ps -> Forall small ps -> no_wfail ans ->
+  (length (wire_packets ps) <= accepts_in ans)%nat ->
+  exists rest, usart_send_packets ps ans = Val (wire_packets ps, rest).
+Proof. exact sender_usart. Qed.
